@@ -87,20 +87,29 @@ type Scenario struct {
 	IP         uint32
 	H          uint64
 	Bm, Fn     int
+	Od         int // index into OutlierCodes (cluster's OutlierDetectionHttpCode)
 	Subs       []Sub
 	Reqs       []Req
 	Sched      []Step
 }
 
 const FwdChars = "gfrpcxyzu!"
-const RtChars = "25cCwvWhHtbo"
+
+// OutlierCodes are the OutlierDetectionHttpCode settings the scenarios use (op parameter od=<index>, default 0).
+var OutlierCodes = []string{"", "5xx", "503", "4xx|503", "3xx|404"}
+
+const RtChars = "2543cCwvWhHtbo"
 
 // RtCharsAll additionally has '!' = RoundTrip panics (kept out of RtChars: exhaustive enumerations use RtChars)
 const RtCharsAll = RtChars + "!"
 
 func (s *Scenario) String() string {
 	var b strings.Builder
-	fmt.Fprintf(&b, "rm=%d,cr=%d,rl=%d,ip=%d,h=%d,bm=%d,fn=%d/", s.Rm, s.Cr, s.Rl, s.IP, s.H, s.Bm, s.Fn)
+	fmt.Fprintf(&b, "rm=%d,cr=%d,rl=%d,ip=%d,h=%d,bm=%d,fn=%d", s.Rm, s.Cr, s.Rl, s.IP, s.H, s.Bm, s.Fn)
+	if s.Od != 0 {
+		fmt.Fprintf(&b, ",od=%d", s.Od)
+	}
+	b.WriteByte('/')
 	for i, sc := range s.Subs {
 		if i > 0 {
 			b.WriteByte(';')
@@ -200,6 +209,13 @@ func Parse(op string) (*Scenario, bool) {
 		if _, ok := kv[k]; !ok {
 			return nil, false
 		}
+	}
+	if od, ok := kv["od"]; ok {
+		if od < 0 || int(od) >= len(OutlierCodes) {
+			return nil, false
+		}
+		s.Od = int(od)
+		delete(kv, "od")
 	}
 	if len(kv) != 7 || kv["ip"] < 0 || kv["ip"] > 0xffffffff || kv["bm"] < 0 || kv["bm"] > 2 || kv["fn"] < 0 || kv["fn"] > 9 ||
 		kv["rm"] < -100 || kv["rm"] > 100 || kv["cr"] < -100 || kv["cr"] > 100 || kv["rl"] < 0 || kv["rl"] > 9 {
@@ -459,6 +475,10 @@ func (r *runner) RoundTrip(out *bfe_http.Request) (*bfe_http.Response, error) {
 		return &bfe_http.Response{StatusCode: 200, Body: bfe_http.EofReader}, nil
 	case '5':
 		return &bfe_http.Response{StatusCode: 503, Body: bfe_http.EofReader}, nil
+	case '4':
+		return &bfe_http.Response{StatusCode: 404, Body: bfe_http.EofReader}, nil
+	case '3':
+		return &bfe_http.Response{StatusCode: 302, Body: bfe_http.EofReader}, nil
 	case 'c':
 		return nil, bfe_http.ConnectError{Addr: out.URL.Host, Err: inner}
 	case 'C':
@@ -576,7 +596,7 @@ func Exec(op string) string {
 	}
 	sticky := sc.Bm == 2
 	conf := cluster_conf.ClusterConf{
-		BackendConf: &cluster_conf.BackendBasic{Protocol: &proto, RetryLevel: &rl},
+		BackendConf: &cluster_conf.BackendBasic{Protocol: &proto, RetryLevel: &rl, OutlierDetectionHttpCode: &OutlierCodes[sc.Od]},
 		GslbBasic: &cluster_conf.GslbBasicConf{CrossRetry: &cr, RetryMax: &rm, BalanceMode: &mode,
 			HashConf: &cluster_conf.HashConf{SessionSticky: &sticky}},
 	}
